@@ -50,7 +50,7 @@ def patience(ctx, P, iters):
         rets = [x for x in ast.walk(fn) if isinstance(x, ast.Return)]
         table = "self.simulation.network.customer_classes[%s.customer_class].reneging_time_distributions[self.id_number-1]" % tok
         dist = [x for x in ast.walk(fn) if isinstance(x, ast.Assign) and isinstance(x.targets[0], ast.Name) and "reneging_time_distributions" in unparse(x.value)]
-        okd = len(dist) == 1 and unparse(dist[0].value).replace(" ", "") == table
+        okd = len(dist) == 1 and unparse(rules.inline_locals(fn, dist[0].value)).replace(" ", "") == table
         dname = unparse(dist[0].targets[0]) if dist else "dist"
         ob.ok("%s.get_reneging_date" % view.name, "; ".join(unparse(r.value) for r in rets))
         if not okd:
@@ -70,7 +70,16 @@ def patience(ctx, P, iters):
             if none is True:
                 okp = okp and val.lower().replace('"', "'") == "float('inf')"
             elif none is False:
-                okp = okp and rules.sum_terms(rv.d["value_node"]) == sorted(["self.now", "%s.sample(ind=%s,t=self.now)" % (dname, tok)])
+                # (locals that name the clock or the sample, each assigned once, are read through)
+                vn = rules.inline_locals(fn, rv.d["value_node"])
+                single = {}
+                for y in ast.walk(fn):
+                    if isinstance(y, ast.Assign) and len(y.targets) == 1 and isinstance(y.targets[0], ast.Name):
+                        single.setdefault(y.targets[0].id, []).append(y.value)
+                calls_ = {k: rules.inline_locals(fn, v[0]) for k, v in single.items() if len(v) == 1 and isinstance(v[0], ast.Call) and call_name(v[0]) in ("sample", "_sample")}
+                if calls_:
+                    vn = rules._Subst(calls_).visit(rules.clone(vn))
+                okp = okp and rules.sum_terms(vn) in (sorted(["self.now", "%s.sample(ind=%s,t=self.now)" % (dname, tok)]), sorted(["self.now", "%s.sample(ind=%s,t=self.now)" % (table, tok)]))
             else:
                 okp = False
         if not okp or np_ != 2:
